@@ -9,7 +9,7 @@ from common import run_driver
 RULE = ('random single-rooted ontologies containing HP:0000118 with alternate ids (n <= 12; 20 thorough) x item sequences (0-7 items: '
         'bare TermIds, identified objects with a bool `is_present`, with a callable `is_present`, without it; present / excluded; '
         'primary or alternate ids; repeated items; terms inside and outside the Phenotypic-abnormality branch, HP:0000118 itself) x '
-        'every ordered subset of the three validators in one ValidationRunner, plus each validator alone. Results compared with the '
+        'every ordered subset of the three validators in one ValidationRunner (built from a list, a tuple or a one-shot iterable, and asked twice), plus each validator alone. Results compared with the '
         'Lean model as a MULTISET of (level, category, ids named in the message in order) — wording is free, ids are extracted with a '
         'generic CURIE tokenizer; is_ok == (no results); deep snapshot (type, identifier.value, is_present) of the caller\'s items before/'
         'after. Non-trivial: >= 1 finding expected, or an alternate id / excluded item is present; distinct by the whole case.')
@@ -110,11 +110,18 @@ def evaluate(ctx, cases, stream):
                 if c['direct']:
                     vr = mk_validator(c['validators'][0], onto).validate(seq)
                 else:
-                    vr = ValidationRunner([mk_validator(v, onto) for v in c['validators']]).validate_all(seq)
+                    # the runner is built from a list, a tuple or a one-shot iterable of validators, and is asked TWICE
+                    vals = [mk_validator(v, onto) for v in c['validators']]
+                    how = len(c['items']) % 3
+                    runner = ValidationRunner(vals if how == 0 else tuple(vals) if how == 1 else (v for v in vals))
+                    vr = runner.validate_all(seq)
+                    again = canon_results(runner.validate_all(seq))
                 impl = canon_results(vr)
                 after = snapshot(items)
                 if impl != model:
                     problem = {'what': 'results', 'impl': impl, 'model': model}
+                elif not c['direct'] and again != model:
+                    problem = {'what': 'results of a second validate_all on the same runner', 'impl': again, 'model': model}
                 elif vr.is_ok() != (len(impl) == 0):
                     problem = {'what': 'is_ok', 'impl': vr.is_ok(), 'n_results': len(impl)}
                 elif before != after or len(items) != len(c['items']):
